@@ -15,6 +15,7 @@ import YorkieModel.Driver.YsonEngine
 import YorkieModel.Driver.CodecEngine
 import YorkieModel.Driver.PresenceEngine
 import YorkieModel.Driver.ProtoEngine
+import YorkieModel.Driver.FDocEngine
 open Yorkie.Driver
 
 def engines : List (String × Engine) := [
@@ -36,7 +37,8 @@ def engines : List (String × Engine) := [
   ("codec", CodecEngine.engine),
   ("pbfuzz", CodecEngine.pbfuzzEngine),
   ("presence", PresenceEngine.engine),
-  ("proto", ProtoEngine.engine)
+  ("proto", ProtoEngine.engine),
+  ("fdoc", FDocEngine.engine)
 ]
 
 partial def loop (e : Engine) (h : IO.FS.Stream) (out : IO.FS.Stream) (st : e.State) : IO Unit := do
